@@ -134,11 +134,11 @@ var props = map[string]propDef{
 	},
 	"C43": {
 		ID: "C43", Harness: "h7obj", Mode: "C43", Pkgs: []string{"core"},
-		StmtYield: "core/suobject.go",
+		StmtYield: "core/suobject.go,core/surecord.go",
 		QuickS: 40, ThoroughS: 900, Recycle: 5000, Level: "exploration",
-		Rule: "each run: one SuObject (0-3 list and 0-2 named members) made concurrent and shared by 2-4 threads that each perform 1-6 single-call operations (add, put, get, delete, erase, size, list/named size, has, find, pop first/last, insert) with keys 0-8 and values 0-3; a scheduling point precedes every statement of core/suobject.go and every lock operation. Non-trivial: at least 3 operations. Distinct: run digest.",
-		Assume: []string{"decides only what is visible at sequentially consistent granularity: no Go run-time error and linearizable results of single-call operations (incl. the final contents); it cannot see data races in the Go memory model sense (tasks are serialised) - that half of the property needs the race detector on real parallel executions", "the sequential specification is the same SuObject code run single-threaded (sequential semantics are C36's subject)", "records, closures and classes are not covered yet"},
-		Comps:  map[string]string{"core.SuObject methods and locking (rwMayLock)": "real, with a yield before every statement", "sync.Mutex / RWMutex": "simulated (simsync)", "interpreter / threads": "stub: harness tasks call the methods directly"},
+		Rule: "each run: one container - a SuObject, a SuRecord built member by member, or a SuRecord that still reads from its database row (0-3 list and 0-2 named members) - made concurrent and shared by 2-4 threads that each perform 1-6 (copy-on-write runs: 1-9) single-call operations (add, put, get, delete, erase, size, list/named size, has, find, pop first/last, insert, copy, slice; on private copies: put, add, delete, check) with keys 0-8 (records: members f0-f4 and 5-8) and values 0-3; a scheduling point precedes every statement of core/suobject.go and core/surecord.go and every lock operation. Non-trivial: at least 3 operations. Distinct: run digest.",
+		Assume: []string{"decides only what is visible at sequentially consistent granularity: no Go run-time error, linearizable results of single-call operations (incl. taking a copy and the final contents) and private copies that stay private; it cannot see data races in the Go memory model sense (tasks are serialised) - that half of the property needs the race detector on real parallel executions", "the sequential specification is the same SuObject / SuRecord code run single-threaded (sequential semantics are C36's subject); a row-backed record is specified by the record with the same members", "records are used without rules and observers (no interpreter thread); closures and classes are not covered"},
+		Comps:  map[string]string{"core.SuObject and core.SuRecord methods and locking (rwMayLock), copy-on-write": "real, with a yield before every statement", "sync.Mutex / RWMutex": "simulated (simsync)", "interpreter / threads": "stub: harness tasks call the methods directly"},
 	},
 	"H3ALL": {
 		ID: "H3ALL", Harness: "h3txn", Mode: "ALL", Pkgs: dbPkgs,
